@@ -622,18 +622,25 @@ func (c *Client) completeCPP(
 	}
 
 	// If subchannel proposal receiver, setup register funding update.
+	// If the opening fails from here on, nobody will await the funding update,
+	// so the registration has to be released again.
+	releaseFunding := func() {}
 	if prop.Type() == wire.SubChannelProposal && partIdx == ProposeeIdx {
 		parent.registerSubChannelFunding(ch.ID(), propBase.InitBals.Balances)
+		releaseFunding = func() { parent.subChannelFundings.Release(ch.ID()) }
 	}
 
 	if err := c.pr.ChannelCreated(ctx, ch.machine, peers, parentChannelID); err != nil {
+		releaseFunding()
 		return ch, errors.WithMessage(err, "persisting new channel")
 	}
 
 	if err := ch.init(ctx, propBase.InitBals, propBase.InitData); err != nil {
+		releaseFunding()
 		return ch, errors.WithMessage(err, "setting initial bals and data")
 	}
 	if err := ch.initExchangeSigsAndEnable(ctx); err != nil {
+		releaseFunding()
 		return ch, errors.WithMessage(err, "exchanging initial sigs and enabling state")
 	}
 
